@@ -376,6 +376,7 @@ def malform(text, rnd, decl_names):
             ("defined-function-arity", text + "(define-fun |df!z| ((a Int)) Int a)(assert (= |df!z| 1))\n"),
             ("declared-function-argument-sort", text + "(declare-fun |uf!s| (Int) Int)(assert (= (|uf!s| true) 1))\n"),
             ("declared-function-arity", text + "(declare-fun |uf!a| (Int) Int)(assert (= (|uf!a| 1 2) 1))\n"),
+            ("let-binds-a-name-twice", text + "(assert (let ((|lv d| 1) (|lv d| 2)) (= |lv d| 1)))\n"),
             ("repeat-zero", text + "(assert (= ((_ repeat 0) #b01) #b01))\n"),
             ("real-division-of-non-arithmetic-constants", text + "(assert (= (/ #b01 #b11) 1.0))\n"),
             ("real-division-of-non-arithmetic-constants", text + "(assert (= (/ \"a\" \"b\") 1.0))\n"),
